@@ -79,9 +79,16 @@ def main():
         else:
             res.append(str(c.get('check', ''))[:200])
             what.append(str(c.get('caught_by', ''))[:160])
+        if m.get('obsolete'):
+            res = ['superseded: ' + str(m['obsolete'])[:400]]
+            what = []
         needs = str(m.get('needs', ''))[:260].replace('|', '/').replace('\n', ' ')
         out.append('| `%s` | %s | %s | %s | %s |' % (os.path.basename(d), m.get('property', ''), needs,
                                                  '; '.join(res).replace('|', '/'), '; '.join(what).replace('|', '/').replace('\n', ' ')))
+    out.append('')
+    out += ['## 12. Repairs made to /repo (generated from props/fixed.json)', '']
+    for line in json.load(open(os.path.join(V, 'props', 'fixed.json'))):
+        out.append('- `' + line.replace('`', "'") + '`')
     out.append('')
     p = os.path.join(V, 'DESIGN.md')
     s = open(p).read()
